@@ -286,7 +286,19 @@ func (r *Run) step(i ssa.Instruction, prev *ssa.BasicBlock) {
 	case *ssa.Phi:
 		for k, p := range x.Block().Preds {
 			if p == prev {
-				set(r.Eval(x.Edges[k]))
+				a := r.Eval(x.Edges[k])
+				/* One of several addresses, chosen by the way here
+				(us, other := &s.in, &s.out or the reverse): the
+				location it names on this path. */
+				if avPtr != a.K {
+					switch x.Edges[k].(type) {
+					case *ssa.FieldAddr, *ssa.IndexAddr, *ssa.Alloc:
+						if l := r.locOf(x.Edges[k]); "" != l {
+							a = AV{K: avPtr, S: l}
+						}
+					}
+				}
+				set(a)
 				return
 			}
 		}
